@@ -348,34 +348,37 @@ func TestC18(t *testing.T) {
 			return
 		}
 
-		// fresh-process cases: accumulated destinations since the start of the file
-		nfp := hx.Pick(8, 100)
-		for i := 0; i < nfp; i++ {
-			var vals [][5]byte
-			x := uint32(i*2654435761 + 977)
-			for j := 0; j < 3+i%5; j++ {
-				x ^= x << 13
-				x ^= x >> 17
-				x ^= x << 5
-				v := [5]byte{byte(x), byte(x >> 8), byte(x >> 16), byte(x >> 24), byte(x >> 5)}
-				if v[0] == 0xFF && v[1] == 0xFF && v[2] == 0xFF {
-					v[0] = 0
+		if hx.FirstShard() {
+			// fresh-process cases: accumulated destinations since the start of the file
+			nfp := hx.Pick(8, 100)
+			for i := 0; i < nfp; i++ {
+				var vals [][5]byte
+				x := uint32(i*2654435761 + 977)
+				for j := 0; j < 3+i%5; j++ {
+					x ^= x << 13
+					x ^= x >> 17
+					x ^= x << 5
+					v := [5]byte{byte(x), byte(x >> 8), byte(x >> 16), byte(x >> 24), byte(x >> 5)}
+					if v[0] == 0xFF && v[1] == 0xFF && v[2] == 0xFF {
+						v[0] = 0
+					}
+					if v[3] == 0xFF {
+						v[3] = 1
+					}
+					if v[4] == 0xFF {
+						v[4] = 2
+					}
+					vals = append(vals, v)
 				}
-				if v[3] == 0xFF {
-					v[3] = 1
+				s := accStream(vals)
+				if msg, ok := freshProcess(rec, s); !ok {
+					rec.Fail("fresh-process", "", msg, &multiCase{FileTypes: []int{4}, Streams: []*fitmodel.Stream{s}})
 				}
-				if v[4] == 0xFF {
-					v[4] = 2
-				}
-				vals = append(vals, v)
 			}
-			s := accStream(vals)
-			if msg, ok := freshProcess(rec, s); !ok {
-				rec.Fail("fresh-process", "", msg, &multiCase{FileTypes: []int{4}, Streams: []*fitmodel.Stream{s}})
-			}
+			rec.Eval("fresh-process", int64(nfp))
+			rec.NonTrivialEnum(int64(nfp))
+
 		}
-		rec.Eval("fresh-process", int64(nfp))
-		rec.NonTrivialEnum(int64(nfp))
 
 		hx.RapidCheck(t, rec, "histories", func(rt *rapid.T, fail func(string, string, any)) {
 			d := gen.D{T: rt}
